@@ -297,6 +297,16 @@ int main(int argc, char** argv) {
              Path64{{6, 2}, {10, 2}, {10, 10}, {6, 10}}, Path64{{4, 0}, {4, 2}, {8, 2}, {8, 4}, {10, 4}, {10, 6}, {12, 6}, {12, 0}}},
             {Path64{{14, 4}, {12, 4}, {12, 6}, {8, 6}, {8, 8}, {6, 8}, {6, 10}, {10, 10}, {10, 12}, {14, 12}},
              Path64{{12, 0}, {12, 8}, {6, 8}, {6, 6}, {2, 6}, {2, 2}, {0, 2}, {0, 0}}});
+    // corpus: dense lattice rectangles in which a ring is split by one horizontal join and merged by a later one; the hole
+    // (90,50)-(100,80) must be found under the big outer polygon through the splits list inherited at the merge
+    {
+      auto R = [](int64_t l, int64_t t, int64_t r, int64_t b) { return Path64{{l, t}, {r, t}, {r, b}, {l, b}}; };
+      Paths64 subj = {R(70, 80, 100, 110), R(30, 30, 70, 90), R(70, 10, 110, 60), R(50, 50, 110, 100), Path64{{40, 130}, {70, 130}, {70, 90}, {40, 90}},
+                      R(10, 30, 70, 90), R(90, 40, 100, 60), R(0, 30, 50, 90), Path64{{60, 90}, {100, 90}, {100, 40}, {60, 40}}, R(0, 100, 60, 150)};
+      Paths64 clip = {Path64{{90, 90}, {150, 90}, {150, 40}, {90, 40}}, R(100, 10, 140, 60), R(70, 50, 120, 100)};
+      kf_tree("corpus.tree.split_then_merged", 2, 0, false, false, subj, clip);
+      kf_tree("corpus.tree.split_then_merged", 2, 0, true, false, subj, clip);
+    }
     kf_checksplitowner_recursion();
   }
   for (int i = 0; i < n_nest; ++i) {
@@ -322,6 +332,40 @@ int main(int argc, char** argv) {
     gen_degenerate(g, in);
     if (in.gen == "degen.mag5" || in.gen == "degen.mag4") continue;   // PolyTree building adds bounds mid-points: keep sums in range
     run_input(g, in, false);
+  }
+  // Dense random polygon sets: many crossings make rounded intersection points produce micro-self-intersections, so rings are
+  // split while the tree is built (CleanCollinear -> FixSelfIntersects -> DoSplitOp appends to outrec_list_ during the build).
+  // Only "same paths as the Paths execution" is judged here (on the real outputs alone), for both tree types.
+  {
+    int n_dense = thorough ? 40000 : 3500;
+    for (int i = 0; i < n_dense; ++i) {
+      Paths64 subj, clip;
+      int64_t ext = g.pick(std::vector<int64_t>{8, 8, 20, 300, 2000, 8000, 8000, 100000});  // tiny grids self-touch after rounding most often
+      for (int k = (int)g.range(1, 2); k > 0; --k) subj.push_back(vh::rand_poly(g, (int)g.range(5, 12), ext));
+      for (int k = (int)g.range(0, 2); k > 0; --k) clip.push_back(vh::rand_poly(g, (int)g.range(3, 10), ext));
+      int ct = (int)g.range(1, 4), fr = (int)g.range(0, 3);
+      bool useD = g.coin();
+      vh::stat(useD ? "evaluations.dense.treeD_vs_pathsD" : "evaluations.dense.tree64_vs_paths64");
+      if (useD) {
+        auto toD = [&](const Paths64& ps) { PathsD r; for (auto& p : ps) { PathD q; for (auto& v : p) q.emplace_back((double)v.x, (double)v.y); r.push_back(q); } return r; };
+        PathsD closed, tclosed;
+        { ClipperD c(0); c.AddSubject(toD(subj)); c.AddClip(toD(clip)); c.Execute((ClipType)ct, (FillRule)fr, closed); }
+        PolyTreeD tree;
+        { ClipperD c(0); c.AddSubject(toD(subj)); c.AddClip(toD(clip)); c.Execute((ClipType)ct, (FillRule)fr, tree); }
+        tclosed = PolyTreeToPathsD(tree);
+        Paths64 a = toInt(closed, 1.0), b = toInt(tclosed, 1.0);
+        if (vh::canon_closed(a) != vh::canon_closed(b))
+          emitF("dense.treeD.pathsets", "ct=" + std::to_string(ct) + " fr=" + std::to_string(fr) + " subj=" + S(subj) + " clip=" + S(clip) + " PathsD=" + std::to_string(a.size()) + " PolyTreeD=" + std::to_string(b.size()));
+      } else {
+        Paths64 closed;
+        { Clipper64 c; c.AddSubject(subj); c.AddClip(clip); c.Execute((ClipType)ct, (FillRule)fr, closed); }
+        PolyTree64 tree;
+        { Clipper64 c; c.AddSubject(subj); c.AddClip(clip); c.Execute((ClipType)ct, (FillRule)fr, tree); }
+        Paths64 b = PolyTreeToPaths64(tree);
+        if (vh::canon_closed(closed) != vh::canon_closed(b))
+          emitF("dense.tree64.pathsets", "ct=" + std::to_string(ct) + " fr=" + std::to_string(fr) + " subj=" + S(subj) + " clip=" + S(clip) + " Paths64=" + std::to_string(closed.size()) + " PolyTree64=" + std::to_string(b.size()));
+      }
+    }
   }
   flush_stats();
   return 0;
